@@ -350,6 +350,18 @@ Definition o_fres (f : fres) : out :=
 Definition o_var3 (x : Z * str * str) : out := let '(p, r, a) := x in OL [OZ p; o_str r; o_str a].
 Definition o_key (k : Z * vop) : out := OL [OZ (fst k); o_vop (snd k)].
 
+(* ------------------------------------------------------------------ decidable side conditions used by the theorems *)
+(* alleles over the alphabet {A..Z, '.'}: evaluated on every database by the harness *)
+Definition vop_ok (v : vop) : bool :=
+  match v with
+  | Sub l r => forallb is_nt l && forallb is_nt r
+  | Ins x => forallb is_nt x
+  | Del d => forallb is_nt d
+  | DelIns d i => forallb is_nt d && forallb is_nt i
+  | Other _ => false
+  end.
+Definition op_ok (op : str) : bool := match parse_op op with Some v => vop_ok v | None => false end.
+
 (* ------------------------------------------------------------------ one evaluation per written variant (harness/c08.py) *)
 Definition lkf (t : ctab) (al : align) (w : iseq) : Z -> Z := lookup_at t al w.
 Definition c08_case (t : ctab) (al : align) (w : iseq) (p : Z) (op : str) (a m : Z) : out :=
@@ -364,7 +376,7 @@ Definition c08_case (t : ctab) (al : align) (w : iseq) (p : Z) (op : str) (a m :
         o_opt o_key (match cv with
                      | Some (g, v') => match realign_variant (lkf t al w) g v' with Some x => eq_key x | None => None end
                      | None => None end);
-        o_str (print_op v)]
+        o_str (print_op v); o_bool (op_ok op)]
   end.
 (* the PROPERTY on the implementation's output: [g],[gop] = key loaded by aldy, [gw] = gene[c:c+m] as aldy returns it,
    [p],[op] = notation written in the database, [rw] = RefSeq window *)
@@ -386,15 +398,3 @@ Definition holds_gap (g : Z) (gop : str) (gw : iseq) (x : Z * str * str) (k : Z 
       str_eqb (apply_vcf x gw) (apply_genome g (Del d) gw) && str_eqb (apply_cigar_del (fst k) (length d') gw) (apply_genome g (Del d) gw)
   | _, _ => false
   end.
-
-(* ------------------------------------------------------------------ decidable side conditions used by the theorems *)
-(* alleles over the alphabet {A..Z, '.'}: evaluated on every database by the harness *)
-Definition vop_ok (v : vop) : bool :=
-  match v with
-  | Sub l r => forallb is_nt l && forallb is_nt r
-  | Ins x => forallb is_nt x
-  | Del d => forallb is_nt d
-  | DelIns d i => forallb is_nt d && forallb is_nt i
-  | Other _ => false
-  end.
-Definition op_ok (op : str) : bool := match parse_op op with Some v => vop_ok v | None => false end.
